@@ -2,6 +2,7 @@
 import numpy as np
 import vlib
 from vlib import cz, czl, tolq
+from props._loopir import loopir_tie, TRUSTED_LINE
 
 LEVEL_TEXT = ("Coq theorems (abstract ordered field with conjugation, every length N, every order p, every data vector) about the "
               "model of arcovar/modcovar = corrmtx('covariance'|'modified') + lstsq(-Xc, X1) + the code's post-processing: the data "
@@ -392,6 +393,11 @@ def run(ctx):
     for i in ctx.coq_cases('c14_marple', PRE, fcases, shard=30,
                            descr='arcovar_marple / modcovar_marple vs Model.CovarMarple at QcC (even indices), and TEST: the Marple model equals the exact least-squares model with zero tolerance (odd indices)'):
         ctx.corr_disagreement('%s [%s]' % (fmeta[i]['function'], fmeta[i]['what']), i, fmeta[i])
+
+    # loop-IR tie: arcovar_marple / modcovar_marple are translated from the snapshot source on this run; the IR programs are evaluated
+    # inside Coq (QcC, zero tolerance) against the hand model Model/CovarMarple.v AND against the exact least-squares model, and
+    # (tolerance) against the implementation
+    loopir_tie(ctx, ['arcovar_marple', 'modcovar_marple'])
 
     mcases = []; mmeta = []
     for _ in range(ctx.q(40, 200)):
